@@ -75,7 +75,9 @@ Lemma ssn_plain_in isvar s t :
   is_piped s = false -> In t (ssn_names isvar s) ->
   In t (simpler s) /\ isvar t = false /\ is_const_leaf t = false /\ is_reserved t = false.
 Proof.
-  intros Hp H. unfold ssn_names in H. rewrite Hp in H.
+  intros Hp H. unfold ssn_names in H.
+  match type of H with In _ (if ?c then _ else _) => destruct c; [destruct H|] end.
+  rewrite Hp in H.
   apply filter_In in H as [Hin Hf]. split; [exact Hin|].
   apply andb_true_iff in Hf as [Hf H3]. apply andb_true_iff in Hf as [H1 H2].
   apply negb_true_iff in H1, H2, H3. now repeat split.
@@ -86,7 +88,9 @@ Lemma ssn_piped_in isvar s t :
   is_piped s = true -> In t (ssn_names isvar s) ->
   exists u, t = cBAR :: u ++ [cBAR] /\ In u (simpler (removelast (tl s))) /\ isvar t = false.
 Proof.
-  intros Hp H. unfold ssn_names in H. rewrite Hp in H. cbv zeta in H.
+  intros Hp H. unfold ssn_names in H.
+  match type of H with In _ (if ?c then _ else _) => destruct c; [destruct H|] end.
+  rewrite Hp in H. cbv zeta in H.
   apply in_map_iff in H as (u & <- & Hu). apply filter_In in Hu as [Hin Hf].
   apply negb_true_iff in Hf. now exists u.
 Qed.
@@ -225,4 +229,22 @@ Proof.
   intros Hl Hs Hc H. apply (ssn_symbol_wf isvar s t); [|exact H].
   unfold leaf_ok, atom_ok_lib in Hl. rewrite Hs, Hc, !orb_false_r in Hl.
   now apply orb_true_iff in Hl.
+Qed.
+
+(* since fix F47 the mutator does not touch a string literal or comment in the place of the symbol: closure holds for
+   EVERY well-formed leaf *)
+Lemma ssn_nonsym_nil isvar s c r : s = c :: r -> (N.eqb c cSEMI || N.eqb c cDQ) = true -> ssn_names isvar s = [].
+Proof. intros -> H. unfold ssn_names. rewrite H. reflexivity. Qed.
+
+Theorem ssn_any_leaf_wf isvar s t :
+  leaf_ok s = true -> In t (ssn_names isvar s) -> leaf_std t = true /\ leaf_ok t = true.
+Proof.
+  intros Hl H.
+  destruct (strlit_ok s) eqn:Hs.
+  { destruct s as [|c r]; [discriminate Hs|]. cbn [strlit_ok] in Hs. apply andb_true_iff in Hs as [Hc _].
+    rewrite (ssn_nonsym_nil isvar (c :: r) c r eq_refl) in H; [destruct H|]. rewrite Hc. apply orb_true_r. }
+  destruct (comment_ok s) eqn:Hc.
+  { destruct s as [|c r]; [discriminate Hc|]. cbn [comment_ok] in Hc. apply andb_true_iff in Hc as [Hc' _].
+    rewrite (ssn_nonsym_nil isvar (c :: r) c r eq_refl) in H; [destruct H|]. rewrite Hc'. reflexivity. }
+  now apply (ssn_leaf_wf isvar s t).
 Qed.
